@@ -151,6 +151,7 @@ def run(ctx, rep):
 
     # ------------------------------------------------------------------ R07.3
     c06.check_mediation(ctx, rep, "R07.3", "R07.3")
+    K.share(ctx, rep, "c06", lambda o: o.rule == "R06.3", "R07.3", floor=1)
 
     # ------------------------------------------------------------------ R07.4
     n_sinks = 0
